@@ -13,7 +13,7 @@ import json, os, re, sys
 sys.path.insert(0, os.path.dirname(os.path.abspath(__file__)))
 from common import *
 
-ck = Check("C02", level="proof")
+ck = Check("C02", level="translation_validation")
 broken = []
 
 if ck.replay_in:
@@ -177,6 +177,7 @@ ck.finish({
     "rule": "one evaluation = one (function, builder mode) pair serialised from go/ir and checked by wf_ssa inside coqc; identical (function, body, types) are evaluated once (%d distinct); non-trivial = distinct body with >= 3 blocks and (a phi or >= 20 instructions)" % len(cases),
     "samples": [describe(c) for c in (cases[:1] + [c for c in cases if c["Phis"] > 2][:1] + [c for c in cases if c["Corpus"].startswith("repo")][:1])],
     "programs": len(data["Items"]),
+    "disagreements_checked": len(rejected),
     "corpus_items": data["Items"],
     "functions_by_corpus": data["ByCorpus"],
     "generated": data["Gen"],
